@@ -36,7 +36,7 @@ Qed.
 Section Cow.
   Variable ct : ctable.
   Hypothesis Hflat : flat_table ct.
-  Hypothesis Hninv : no_inval_table ct.
+  Hypothesis Hninv : inval_spec ct.
   Hypothesis Hres : no_reserved_names ct.
   Notation Inv := (Inv ct).
 
@@ -124,11 +124,12 @@ Section Cow.
       intros ->. rewrite N in No. inversion No; subst. simpl in So. lia.
   Qed.
 
-  Lemma store_into_copy rec l' cl k a v :
+  Lemma store_into_copy fuel1 l' cl k a v :
     lookup_cls ct cl = Some k ->
-    T (CW l' cl k a v) (raw_setattr l' a v ;;; invalidate_attrs ct rec l' a) (fun _ h => Inv h) Inv.
+    T (CW l' cl k a v) (raw_setattr l' a v ;;; invalidate_attrs ct (exec ct fuel1) l' a) (fun _ h => Inv h) Inv.
   Proof.
-    intro Hk. eapply T_bind; [|intros ?; apply invalidate_noop; auto].
+    intro Hk. eapply T_bind with (Q := fun _ h => Inv h);
+      [|intros ?; eapply T_conseq; [apply (Hninv fuel1 l' a (fun _ => True) xstable_true)| | |]; cbv beta; intros; tauto].
     eapply T_pre; [|apply raw_setattr_Inv; auto].
     intros h (I & L & (d' & N) & Cv). split; auto. split; [left; exact L|].
     intros cl0 d0 k0 sp0 N0 Hk0 Ha0. rewrite N in N0. inversion N0; subst cl0 d0.
@@ -136,9 +137,9 @@ Section Cow.
   Qed.
 
   (* _thawed(copy) around the store *)
-  Lemma cow_tail rec l' cl k a v :
+  Lemma cow_tail fuel1 l' cl k a v :
     lookup_cls ct cl = Some k ->
-    T (CW l' cl k a v) (thawed ct l' true (raw_setattr l' a v ;;; invalidate_attrs ct rec l' a))
+    T (CW l' cl k a v) (thawed ct l' true (raw_setattr l' a v ;;; invalidate_attrs ct (exec ct fuel1) l' a))
       (fun _ h => Inv h) Inv.
   Proof.
     intro Hk. unfold thawed.
@@ -165,10 +166,10 @@ Section Cow.
   Qed.
 
   (* mutate_attr(..., inplace=False) on a flat instance with a value nobody references *)
-  Theorem mutate_attr_cow rec l a v tc s cl (d : list (nat * val)) k :
+  Theorem mutate_attr_cow fuel1 l a v tc s cl (d : list (nat * val)) k :
     Inv (heap s) -> FI ct (heap s) l cl d k -> loose (heap s) v ->
     (tc = false -> forall sp, lookup_attr k a = Some sp -> check_type FUEL ct (heap s) v (a_ty sp) = true) ->
-    Inv (heap (snd (mutate_attr ct rec l a v false tc false false s))).
+    Inv (heap (snd (mutate_attr ct (exec ct fuel1) l a v false tc false false s))).
   Proof.
     intros I FIs L Cv0. pose proof FIs as (N & Hk & Hdnc & Hpc & Re).
     unfold mutate_attr. destruct (is_sentinel v); [exact I|].
@@ -206,12 +207,12 @@ Section Cow.
     rewrite (loose_not_held (heap s) l cl d a v N L). unfold bind at 1. cbn [ret].
     destruct FI1 as (N1 & _).
     unfold bind at 1.
-    pose proof (cow_tail rec new cl k a v Hk s1) as CT.
+    pose proof (cow_tail fuel1 new cl k a v Hk s1) as CT.
     assert (Pre : CW new cl k a v (heap s1)).
     { split; [exact I1|]. split; [eapply loose_frame; eauto|]. split; [eauto|].
       intros sp Ea. eapply check_frame; eauto. eapply flat_attr; eauto. }
     specialize (CT Pre).
-    destruct (thawed ct new true (raw_setattr new a v;;; invalidate_attrs ct rec new a) s1) as [[u|e] s2];
+    destruct (thawed ct new true (raw_setattr new a v;;; invalidate_attrs ct (exec ct fuel1) new a) s1) as [[u|e] s2];
       exact CT.
   Qed.
 End Cow.
@@ -224,7 +225,7 @@ Definition leaf_attr (sp : attr_spec) : Prop := (exists fam, leaf_coll sp fam) \
 Section CowOps.
   Variable ct : ctable.
   Hypothesis Hflat : flat_table ct.
-  Hypothesis Hninv : no_inval_table ct.
+  Hypothesis Hninv : inval_spec ct.
   Hypothesis Hres : no_reserved_names ct.
   Notation Inv := (Inv ct).
   Notation rec := (exec ct XFUEL).
@@ -289,7 +290,7 @@ Section CowOps.
       (mutate_attr ct rec l a v false tc false false) (fun _ h => Inv h) Inv.
   Proof.
     intros Fc Km Hk s (I & N & L & Cv).
-    pose proof (mutate_attr_cow ct Hflat Hninv Hres rec l a v tc s cl d k I
+    pose proof (mutate_attr_cow ct Hflat Hninv Hres XFUEL l a v tc s cl d k I
                   (FI_of_Inv ct (heap s) l cl d k I N Hk Fc Km) L Cv) as R.
     destruct (mutate_attr ct rec l a v false tc false false s) as [[r|e] s']; exact R.
   Qed.
@@ -513,18 +514,18 @@ End CowOps.
 Section MoreOps.
   Variable ct : ctable.
   Hypothesis Hflat : flat_table ct.
-  Hypothesis Hninv : no_inval_table ct.
+  Hypothesis Hninv : inval_spec ct.
   Notation Inv := (Inv ct).
 
   Definition recv_leafa (l : loc) (a : aid) (h : heap_t) : Prop :=
     forall cl d k sp, nth_error h l = Some (OInst cl d) -> lookup_cls ct cl = Some k ->
       lookup_attr k a = Some sp -> leaf_attr sp.
 
-  Lemma prepare_then_store_any rec' fuel l a sp v :
+  Lemma prepare_then_store_any fuel' fuel l a sp v :
     leaf_attr sp ->
     T (fun h => Inv h /\ loose h v)
       (value <- prepare_attr_value ct (exec ct fuel) sp l v None ;;
-       mutate_attr ct rec' l a value true true false false)
+       mutate_attr ct (exec ct fuel') l a value true true false false)
       (fun _ h => Inv h) Inv.
   Proof.
     intro Hl. eapply T_bind.
@@ -532,7 +533,7 @@ Section MoreOps.
       + intros h [I L]. split; [apply IF_true; exact I|exact L].
       + intros r h H. exact H.
       + intros h [I _]. exact I.
-    - intros value. eapply T_pre; [|apply (mutate_attr_inplace ct Hflat Hninv rec' l a value true)].
+    - intros value. eapply T_pre; [|apply (mutate_attr_inplace ct Hflat Hninv fuel' l a value true)].
       intros h [[I _] L]. split; auto. split; [left; exact L|discriminate].
   Qed.
 
@@ -545,9 +546,9 @@ Section MoreOps.
     eapply T_bind; [apply T_cls_of; tauto|]. intros k.
     intros s [[[I [L R]] N] Hk].
     destruct (lookup_attr k a) as [sp|] eqn:Ha.
-    - apply (prepare_then_store_any (exec ct fuel) fuel l a sp v (R _ _ _ _ N Hk Ha) s). auto.
+    - apply (prepare_then_store_any fuel fuel l a sp v (R _ _ _ _ N Hk Ha) s). auto.
     - rewrite bind_ret_l.
-      apply (mutate_attr_inplace ct Hflat Hninv (exec ct fuel) l a v true s).
+      apply (mutate_attr_inplace ct Hflat Hninv fuel l a v true s).
       split; auto. split; [left; exact L|discriminate].
   Qed.
 
@@ -586,7 +587,7 @@ Section MoreOps.
       destruct (lookup_attr k a) as [sp|] eqn:Ha; simpl; auto.
       split; auto. split; [eapply lookup_attr_name; eauto|eauto]. }
     intros r. apply T_pull. intros [Hn Hl]. unfold with_attr. rewrite Hn.
-    apply (prepare_then_store_any (exec ct XFUEL) XFUEL l a (snd r) (pos0 hh) Hl).
+    apply (prepare_then_store_any XFUEL XFUEL l a (snd r) (pos0 hh) Hl).
   Qed.
 
   (* copy.deepcopy(obj): a flat instance, a container of non-references, a non-reference *)
